@@ -43,6 +43,9 @@ def relativise(name, prefix):
     return name
 
 
+_ZIPS = [0]
+
+
 class Composed:
     def __init__(self):
         self.main_xml = None
@@ -81,6 +84,25 @@ class Composed:
                 os.makedirs(os.path.dirname(target), exist_ok=True)
                 with open(target, "w", encoding="utf-8") as f:
                     f.write(text)
+        self._zip_entries = []
+        for top in sorted(getattr(self, "zipped", ())):
+            # the package lives in a zip archive, and the archive is on sys.path under a spelling
+            # that is not normalised ('<dir>/./<archive>'): the way PYTHONPATH=./lib.zip puts it
+            import zipfile
+            src = os.path.join(self.root, top)
+            if not os.path.isdir(src) or "." in top:
+                continue
+            _ZIPS[0] += 1       # the interpreter remembers the directory of every archive it has read, by path
+            arch = os.path.join(self.root, "zcvzip-%s-%d.zip" % (top, _ZIPS[0]))
+            with zipfile.ZipFile(arch, "w") as z:
+                for d, _dirs, fns in os.walk(src):
+                    for fn in fns:
+                        full = os.path.join(d, fn)
+                        z.write(full, os.path.relpath(full, self.root))
+            shutil.rmtree(src)
+            entry = self.root + "/./" + os.path.basename(arch)
+            sys.path.insert(0, entry)
+            self._zip_entries.append(entry)
         if self.link_packages:
             store = os.path.join(self.root, "zcv-pkgstore")
             os.makedirs(store, exist_ok=True)
@@ -101,6 +123,10 @@ class Composed:
         if self.root:
             if self.root in sys.path:
                 sys.path.remove(self.root)
+            for entry in getattr(self, "_zip_entries", []):
+                if entry in sys.path:
+                    sys.path.remove(entry)
+                sys.path_importer_cache.pop(entry, None)
             tops = set(p.split(".")[0] for p in self.packages)
             for m in list(sys.modules):
                 if m.split(".")[0] in tops:
